@@ -17,6 +17,11 @@
 //!     earlier must already be visible to the consumer.  (The lock-step families above give the
 //!     renderer an idle period after every line; a renderer that hands rows over only when its
 //!     channel has been idle passes them and fails here.)
+//!   * --file input (binary): the same chunked / paced / trickle feeds through `-f <fifo>`,
+//!     `-f /dev/stdin` (/dev/fd/0, /proc/self/fd/0) with the write end held open by the harness
+//!     (rows of complete lines must be on the stdout pipe before any EOF), and whole inputs of
+//!     0 bytes … > 8 MiB as regular files / through the FIFO at full speed; reference: the same
+//!     binary reading the same bytes on stdin (`agrind -f X q` = `agrind q < X`).
 //! No real-time deadline tighter than 5 s is ever asserted in the lock-step families, none tighter
 //! than 1 s (and then only while further input keeps arriving) in the trickle family.
 //! Oracle self-tests: `AGVERIF_C15_MUTANT=bufsink agverif C15 …` puts a 64 KiB BufWriter in front of
@@ -1574,6 +1579,568 @@ fn check_blank_lines(ctx: &mut Ctx) {
     }
 }
 
+// ------------------------------------------------------------------------------------------------
+// input given with --file/-f: FIFO, /dev/stdin, /dev/fd/0, /proc/self/fd/0, regular files
+// ------------------------------------------------------------------------------------------------
+//
+// The property speaks about "the input"; `agrind -f PATH q` must behave like `agrind q < PATH`
+// whatever PATH is.  Families:
+//   * file-paced  : the chunked / paced feeds of the stream and slow-producer families, delivered to
+//                   the real binary through `-f <fifo>` or `-f /dev/stdin` (… /dev/fd/0,
+//                   /proc/self/fd/0) while the harness keeps the write end open: after every chunk
+//                   that completes a line the rows of all complete lines must be on the stdout pipe
+//                   within PATIENCE (no EOF has been given), never more rows than that, and after EOF
+//                   the bytes must equal those of the same binary reading the same bytes on stdin.
+//   * trickle-file: the trickle feed through the same transports.
+//   * file-volume : whole inputs of generated sizes (0 bytes … > 8 MiB in the thorough tier) as a
+//                   regular file and pushed through a FIFO / /dev/stdin at full speed: same bytes as
+//                   the stdin run, and the number of rows the query must let through.
+
+/// scratch directory under the system temp dir, removed when dropped
+struct Scratch(std::path::PathBuf);
+
+impl Scratch {
+    fn new(tag: &str) -> Option<Scratch> {
+        use std::sync::atomic::AtomicUsize;
+        static N: AtomicUsize = AtomicUsize::new(0);
+        let nonce = std::time::SystemTime::now().duration_since(std::time::UNIX_EPOCH).map(|d| d.subsec_nanos()).unwrap_or(0);
+        let p = std::env::temp_dir().join(format!("agverif-c15-{}-{}-{}-{}", std::process::id(), tag, N.fetch_add(1, Ordering::SeqCst), nonce));
+        std::fs::create_dir_all(&p).ok()?;
+        Some(Scratch(p))
+    }
+}
+
+impl Drop for Scratch {
+    fn drop(&mut self) {
+        let _ = std::fs::remove_dir_all(&self.0);
+    }
+}
+
+#[derive(Clone, Copy, Debug, PartialEq)]
+enum Via {
+    Fifo,
+    DevStdin,
+    DevFd0,
+    ProcFd0,
+}
+
+impl Via {
+    fn name(self) -> &'static str {
+        match self {
+            Via::Fifo => "-f <fifo>",
+            Via::DevStdin => "-f /dev/stdin",
+            Via::DevFd0 => "-f /dev/fd/0",
+            Via::ProcFd0 => "-f /proc/self/fd/0",
+        }
+    }
+    fn path(self) -> Option<&'static str> {
+        match self {
+            Via::Fifo => None,
+            Via::DevStdin => Some("/dev/stdin"),
+            Via::DevFd0 => Some("/dev/fd/0"),
+            Via::ProcFd0 => Some("/proc/self/fd/0"),
+        }
+    }
+    /// FIFO and /dev/stdin every second case each, the two other spellings of "my stdin" now and then
+    fn of(g: usize, r: &mut Rng) -> Via {
+        match g % 4 {
+            0 | 2 => Via::Fifo,
+            1 => Via::DevStdin,
+            _ => *r.pick(&[Via::DevStdin, Via::DevFd0, Via::ProcFd0]),
+        }
+    }
+}
+
+/// a running `agrind -f <transport> query -o mode` whose input is held open by the harness
+struct Live {
+    child: Arc<Mutex<std::process::Child>>,
+    input: Option<Box<dyn Write + Send>>,
+    out: Arc<Mutex<Vec<u8>>>,
+    rows: Arc<std::sync::atomic::AtomicUsize>,
+    out_thread: Option<std::thread::JoinHandle<()>>,
+    err_thread: Option<std::thread::JoinHandle<String>>,
+    done: Arc<AtomicBool>,
+    spawned: Instant,
+    _scratch: Option<Scratch>,
+}
+
+#[derive(Debug, Default)]
+struct Fin {
+    exited: bool,
+    status: Option<i32>,
+    signal: Option<i32>,
+    stdout: Vec<u8>,
+    stderr: String,
+}
+
+impl Live {
+    /// spawn the child FIRST, then open the write end of the FIFO with a deadline (O_NONBLOCK open
+    /// fails with ENXIO until the child has opened the read end); a watchdog kills the child after
+    /// `hard` whatever happens, `Drop` kills it on every other path.
+    fn spawn(bin: &str, query: &str, mode: &str, via: Via, hard: Duration) -> Result<Live, String> {
+        use std::os::unix::ffi::OsStrExt;
+        use std::os::unix::io::FromRawFd;
+        let mut cmd = Command::new(bin);
+        cmd.env("RUST_BACKTRACE", "0").env_remove("RUST_LOG").stdout(Stdio::piped()).stderr(Stdio::piped());
+        let mut scratch = None;
+        let mut fifo: Option<std::ffi::CString> = None;
+        match via {
+            Via::Fifo => {
+                let s = Scratch::new("fifo").ok_or_else(|| "cannot create a scratch directory".to_string())?;
+                let p = s.0.join("in.fifo");
+                let cp = std::ffi::CString::new(p.as_os_str().as_bytes()).map_err(|e| e.to_string())?;
+                if unsafe { libc::mkfifo(cp.as_ptr(), 0o600) } != 0 {
+                    return Err(format!("mkfifo failed: {}", io::Error::last_os_error()));
+                }
+                cmd.arg("-f").arg(&p).stdin(Stdio::null());
+                fifo = Some(cp);
+                scratch = Some(s);
+            }
+            v => {
+                cmd.arg("-f").arg(v.path().unwrap()).stdin(Stdio::piped());
+            }
+        }
+        cmd.arg(query).arg("-o").arg(mode);
+        let mut child = cmd.spawn().map_err(|e| format!("spawn failed: {}", e))?;
+        let spawned = Instant::now();
+        let mut so = child.stdout.take().unwrap();
+        let mut se = child.stderr.take().unwrap();
+        let stdin = child.stdin.take();
+        let out = Arc::new(Mutex::new(Vec::new()));
+        let rows = Arc::new(std::sync::atomic::AtomicUsize::new(0));
+        let (out2, rows2) = (out.clone(), rows.clone());
+        let out_thread = std::thread::spawn(move || {
+            let mut buf = [0u8; 8192];
+            loop {
+                match so.read(&mut buf) {
+                    Ok(0) | Err(_) => break,
+                    Ok(k) => {
+                        out2.lock().unwrap().extend_from_slice(&buf[..k]);
+                        rows2.fetch_add(buf[..k].iter().filter(|b| **b == b'\n').count(), Ordering::SeqCst);
+                    }
+                }
+            }
+        });
+        let err_thread = std::thread::spawn(move || {
+            let mut v = Vec::new();
+            let _ = se.read_to_end(&mut v);
+            String::from_utf8_lossy(&v).into_owned()
+        });
+        let child = Arc::new(Mutex::new(child));
+        let done = Arc::new(AtomicBool::new(false));
+        {
+            let (child, done) = (child.clone(), done.clone());
+            std::thread::spawn(move || {
+                let t0 = Instant::now();
+                while !done.load(Ordering::SeqCst) {
+                    if t0.elapsed() > hard {
+                        let _ = child.lock().unwrap().kill();
+                        break;
+                    }
+                    std::thread::sleep(Duration::from_millis(20));
+                }
+            });
+        }
+        let mut live = Live { child, input: None, out, rows, out_thread: Some(out_thread), err_thread: Some(err_thread), done, spawned, _scratch: scratch };
+        match fifo {
+            None => live.input = stdin.map(|s| Box::new(s) as Box<dyn Write + Send>),
+            Some(cp) => {
+                let t0 = Instant::now();
+                let fd = loop {
+                    let fd = unsafe { libc::open(cp.as_ptr(), libc::O_WRONLY | libc::O_NONBLOCK | libc::O_CLOEXEC) };
+                    if fd >= 0 {
+                        break fd;
+                    }
+                    let e = io::Error::last_os_error();
+                    if e.raw_os_error() != Some(libc::ENXIO) && e.kind() != io::ErrorKind::Interrupted {
+                        return Err(format!("cannot open the FIFO for writing: {}", e));
+                    }
+                    if let Ok(Some(st)) = live.child.lock().unwrap().try_wait() {
+                        return Err(format!("the child exited ({:?}) before it opened the FIFO", st.code()));
+                    }
+                    if t0.elapsed() > Duration::from_secs(20) {
+                        return Err("the child did not open the FIFO within 20 s".into());
+                    }
+                    std::thread::sleep(Duration::from_millis(1));
+                };
+                unsafe {
+                    let fl = libc::fcntl(fd, libc::F_GETFL);
+                    libc::fcntl(fd, libc::F_SETFL, fl & !libc::O_NONBLOCK);
+                }
+                live.input = Some(Box::new(unsafe { std::fs::File::from_raw_fd(fd) }));
+            }
+        }
+        Ok(live)
+    }
+
+    fn write(&mut self, b: &[u8]) -> bool {
+        match self.input.as_mut() {
+            Some(w) => w.write_all(b).and_then(|_| w.flush()).is_ok(),
+            None => false,
+        }
+    }
+    fn rows(&self) -> usize {
+        self.rows.load(Ordering::SeqCst)
+    }
+    fn bytes(&self) -> Vec<u8> {
+        self.out.lock().unwrap().clone()
+    }
+    /// how long to wait for a row now: PATIENCE, but never less than 10 s after the spawn (the
+    /// child may still be starting up on a loaded machine)
+    fn patience(&self) -> Duration {
+        PATIENCE.max((PATIENCE * 2).saturating_sub(self.spawned.elapsed()))
+    }
+    /// close the input (EOF), wait for the exit (kill after `limit`), collect the output
+    fn finish(mut self, limit: Duration) -> Fin {
+        use std::os::unix::process::ExitStatusExt;
+        self.input = None;
+        let mut fin = Fin::default();
+        let t0 = Instant::now();
+        loop {
+            let st = self.child.lock().unwrap().try_wait();
+            match st {
+                Ok(Some(st)) => {
+                    fin.exited = true;
+                    fin.status = st.code();
+                    fin.signal = st.signal();
+                    break;
+                }
+                Ok(None) => {
+                    if t0.elapsed() > limit {
+                        let mut c = self.child.lock().unwrap();
+                        let _ = c.kill();
+                        let _ = c.wait();
+                        break;
+                    }
+                    std::thread::sleep(Duration::from_millis(2));
+                }
+                Err(_) => break,
+            }
+        }
+        self.done.store(true, Ordering::SeqCst);
+        if let Some(t) = self.out_thread.take() {
+            let _ = t.join();
+        }
+        if let Some(t) = self.err_thread.take() {
+            fin.stderr = t.join().unwrap_or_default();
+        }
+        fin.stdout = self.bytes();
+        fin
+    }
+}
+
+impl Drop for Live {
+    fn drop(&mut self) {
+        self.input = None;
+        self.done.store(true, Ordering::SeqCst);
+        if let Ok(mut c) = self.child.lock() {
+            if let Ok(None) = c.try_wait() {
+                let _ = c.kill();
+                let _ = c.wait();
+            }
+        }
+    }
+}
+
+/// the same binary reading the same bytes on plain stdin
+fn stdin_run(bin: &str, query: &str, mode: &str, input: &[u8]) -> ProcOut {
+    let args: Vec<String> = vec![query.into(), "-o".into(), mode.into()];
+    run_proc(bin, &args, Feed::Finite(input.to_vec()), None, 0, Duration::from_secs(120))
+}
+
+fn proc_ok(o: &ProcOut) -> bool {
+    !o.timed_out && !o.crashed() && o.status == Some(0)
+}
+
+/// one more cut at byte offset `p`
+fn with_cut(chunks: Vec<Vec<u8>>, p: usize) -> Vec<Vec<u8>> {
+    let mut out = Vec::with_capacity(chunks.len() + 1);
+    let mut off = 0;
+    for c in chunks {
+        let l = c.len();
+        if p > off && p < off + l {
+            out.push(c[..p - off].to_vec());
+            out.push(c[p - off..].to_vec());
+        } else {
+            out.push(c);
+        }
+        off += l;
+    }
+    out
+}
+
+/// lock-step promptness + total output for one generated case, input through `-f <transport>`
+fn check_file_paced(ctx: &mut Ctx, bin: &str, g: usize, cap: usize) {
+    let fam = "file-paced";
+    let key = format!("file-paced:{}:{}", g, cap);
+    let mut r = case_rng(ctx.seed, 7, g);
+    let via = Via::of(g, &mut r);
+    let nlines = match r.below(10) {
+        0 => 0,
+        1 => 1,
+        _ => 2 + r.below(cap),
+    };
+    let final_newline = r.chance(65);
+    let c = match stream_case(&mut r, nlines, final_newline) {
+        Some(c) => c,
+        None => {
+            ctx.case(fam, "", "skip", json!({"why": "case construction: per-line oracle not applicable"}));
+            return;
+        }
+    };
+    let all: Vec<u8> = c.lines.concat();
+    let (mut chunks, style) = chunking(&mut r, &all);
+    // the last newline-terminated line arrives in two pieces (the second one carries the newline)
+    let term = if final_newline { c.lines.len() } else { c.lines.len().saturating_sub(1) };
+    let mut split_at: Option<usize> = None;
+    if term > 0 && r.chance(75) {
+        let s: usize = c.lines[..term - 1].iter().map(|l| l.len()).sum();
+        let l = c.lines[term - 1].len();
+        if l >= 2 {
+            split_at = Some(s + 1 + r.below(l - 1));
+        }
+    }
+    let pace = *r.pick(&["none", "long-gaps", "short-gaps", "pause-inside-line"]);
+    if pace == "long-gaps" && chunks.len() > 12 {
+        chunks = c.lines.iter().filter(|l| !l.is_empty()).cloned().collect();
+    }
+    if let Some(p) = split_at {
+        chunks = with_cut(chunks, p);
+    }
+    let mut gaps: Vec<u64> = vec![0; chunks.len()];
+    let mut off = 0;
+    for (i, ch) in chunks.iter().enumerate() {
+        gaps[i] = match pace {
+            "long-gaps" => 60 + r.below(90) as u64, // longer than the 50 ms poll
+            "short-gaps" if chunks.len() <= 150 => 1 + r.below(10) as u64,
+            "pause-inside-line" if Some(off) == split_at => 200 + r.below(500) as u64,
+            _ => 0,
+        };
+        off += ch.len();
+    }
+    let info = |extra: serde_json::Value| {
+        let mut j = json!({"query": c.query, "mode": c.mode, "input_via": via.name(), "lines": c.lines.len(), "final_newline": final_newline, "kind": c.kind,
+            "chunking": style, "pace": pace, "chunks": chunks.len(), "last_line_split_at": split_at,
+            "chunk_lens": chunks.iter().take(64).map(|c| c.len()).collect::<Vec<usize>>(),
+            "input_hex": if all.len() <= 600 { hexb(&all) } else { format!("{}…", hexb(&all[..600])) }});
+        if let Some(c) = extra.get("class") {
+            j["class"] = c.clone();
+        }
+        if let Some(w) = extra.get("what") {
+            j["what"] = w.clone();
+        }
+        j["detail"] = extra;
+        j
+    };
+    // reference: the same bytes on stdin
+    let refrun = stdin_run(bin, &c.query, &c.mode, &all);
+    if !proc_ok(&refrun) {
+        ctx.case(fam, "", "skip", info(json!({"why": "the reference run on stdin did not complete normally", "proc": refrun.summary()})));
+        return;
+    }
+    if refrun.stdout != c.expected {
+        ctx.case(fam, "", "skip", info(json!({"why": "binary on stdin and in-process run differ: the per-line row counts do not apply"})));
+        return;
+    }
+    let mut live = match Live::spawn(bin, &c.query, &c.mode, via, Duration::from_secs(240)) {
+        Ok(l) => l,
+        Err(e) => {
+            ctx.case(fam, "", "skip", info(json!({"why": "could not set up the transport", "err": e})));
+            return;
+        }
+    };
+    let mut released = 0usize;
+    let mut complete_prev = 0usize;
+    let mut failure: Option<serde_json::Value> = None;
+    let mut worst = 0f64;
+    for (ci, ch) in chunks.iter().enumerate() {
+        if gaps[ci] > 0 {
+            std::thread::sleep(Duration::from_millis(gaps[ci]));
+        }
+        if !live.write(ch) {
+            if !c.kind.starts_with("head") {
+                failure = Some(json!({"class": "C15/loss-dup-reorder", "what": "the child closed its --file input before EOF", "chunk": ci, "bytes_delivered": released}));
+            }
+            break; // after `limit N` is satisfied the child may go away
+        }
+        released += ch.len();
+        let complete = all[..released].iter().filter(|b| **b == b'\n').count();
+        if complete > complete_prev {
+            complete_prev = complete;
+            let want = c.rows_after[complete.min(c.lines.len())];
+            let t = Instant::now();
+            let limit = live.patience();
+            let ok = wait_until(limit, || live.rows() >= want);
+            worst = worst.max(t.elapsed().as_secs_f64());
+            let got = live.bytes();
+            let have = got.iter().filter(|b| **b == b'\n').count();
+            if !ok {
+                failure = Some(json!({"class": "C15/buffering-delay",
+                    "what": format!("the rows of complete lines did not reach stdout within {} s although the line is complete; the writer keeps the --file input open (no EOF yet)", limit.as_secs()),
+                    "complete_lines": complete, "rows_expected": want, "rows_written": have, "bytes_delivered": released}));
+                break;
+            }
+            if have > want || !is_prefix(&got, &refrun.stdout) {
+                failure = Some(json!({"class": "C15/stream-content", "what": "bytes written so far are not rows of the complete lines (a prefix of the stdin run's output)",
+                    "complete_lines": complete, "rows_expected": want, "rows_written": have, "written_hex": hexb(&got[..got.len().min(300)])}));
+                break;
+            }
+        }
+    }
+    let fin = live.finish(Duration::from_secs(20));
+    if let Some(f) = failure {
+        ctx.case(fam, &key, "viol", info(f));
+    } else if !fin.exited {
+        ctx.case(fam, &key, "viol", info(json!({"class": "C15/no-termination", "what": "the binary did not exit within 20 s after EOF on its --file input", "stderr": fin.stderr.chars().take(300).collect::<String>()})));
+    } else if fin.stdout != refrun.stdout || fin.status != refrun.status || fin.signal.is_some() {
+        ctx.case(fam, &key, "viol", info(json!({"class": "C15/loss-dup-reorder", "what": "`agrind -f X q` and `agrind q < X` differ for the same bytes",
+            "status": fin.status, "signal": fin.signal, "stderr": fin.stderr.chars().take(300).collect::<String>(),
+            "stdin_hex": hexb(&refrun.stdout[..refrun.stdout.len().min(400)]), "file_hex": hexb(&fin.stdout[..fin.stdout.len().min(400)]),
+            "stdin_len": refrun.stdout.len(), "file_len": fin.stdout.len()})));
+    } else {
+        ctx.case(fam, &key, "pass", info(json!({"rows": c.rows_after.last(), "worst_wait_s": worst})));
+    }
+}
+
+fn check_trickle_file(ctx: &mut Ctx, bin: &str, g: usize) {
+    for attempt in 0..3 {
+        if trickle_file_once(ctx, bin, g, attempt == 2) {
+            break;
+        }
+    }
+}
+
+/// the trickle feed (gaps far below the poll timeout, nobody waits for output) through `-f <transport>`
+fn trickle_file_once(ctx: &mut Ctx, bin: &str, g: usize, last: bool) -> bool {
+    let mut r = case_rng(ctx.seed, 8, g);
+    let via = if g % 2 == 0 { Via::Fifo } else { *r.pick(&[Via::DevStdin, Via::DevStdin, Via::DevFd0, Via::ProcFd0]) };
+    let (n, gap_ms, q, mode, from) = trickle_params(&mut r);
+    let lines: Vec<Vec<u8>> = (0..n).map(|i| format!("{{\"i\":{}}}\n", i).into_bytes()).collect();
+    let all: Vec<u8> = lines.concat();
+    let info = json!({"where": "binary", "input_via": via.name(), "query": q, "mode": mode, "lines": n, "gap_ms": gap_ms});
+    let refrun = stdin_run(bin, q, mode, &all);
+    if !proc_ok(&refrun) {
+        ctx.case("trickle-file", "", "skip", json!({"why": "the reference run on stdin did not complete normally", "case": info}));
+        return true;
+    }
+    let mut live = match Live::spawn(bin, q, mode, via, Duration::from_secs(120)) {
+        Ok(l) => l,
+        Err(e) => {
+            ctx.case("trickle-file", "", "skip", json!({"why": "could not set up the transport", "err": e, "case": info}));
+            return true;
+        }
+    };
+    let rows = live.rows.clone();
+    let o = trickle(&mut |i| live.write(&lines[i]), &|| rows.load(Ordering::SeqCst), &|k| trickle_rows_after(from, k), n, gap_ms);
+    let fin = live.finish(Duration::from_secs(10));
+    let total_ok = if fin.exited { Some(fin.stdout == refrun.stdout && fin.status == Some(0)) } else { None };
+    trickle_verdict(ctx, "trickle-file", &format!("trickle-file:{}", g), &o, total_ok, info, last)
+}
+
+/// whole inputs of generated sizes: regular file (and FIFO / /dev/stdin at full speed) against stdin
+fn check_file_volume(ctx: &mut Ctx, bin: &str, g: usize) {
+    let fam = "file-volume";
+    let key = format!("file-volume:{}", g);
+    let mut r = case_rng(ctx.seed, 9, g);
+    // size classes; the > 8 MiB one only in the thorough tier (and in replays of such a case)
+    let class = match g % 8 {
+        0 => "empty",
+        1 => "one-line",
+        2 | 5 => "over-64KiB",
+        3 => "few-lines",
+        4 => "over-pipe-capacity",
+        6 => "huge-lines",
+        _ if ctx.thorough() && g % 32 == 7 => "over-8MiB",
+        _ => *r.pick(&["one-line", "few-lines", "over-64KiB"]),
+    };
+    let target: usize = match class {
+        "over-64KiB" => 65537 + r.below(400_000),
+        "over-pipe-capacity" => (1 << 20) + r.below(2 << 20),
+        "over-8MiB" => (8 << 20) + 1 + r.below(1 << 20),
+        _ => 0,
+    };
+    let fixed_lines = match class {
+        "empty" => 0,
+        "one-line" => 1,
+        "few-lines" => 2 + r.below(60),
+        "huge-lines" => 3 + r.below(8),
+        _ => usize::MAX,
+    };
+    let mut input: Vec<u8> = Vec::with_capacity(target + 1024);
+    let mut n = 0usize;
+    while (fixed_lines != usize::MAX && n < fixed_lines) || (fixed_lines == usize::MAX && input.len() < target) {
+        let pad = if class == "huge-lines" && r.chance(40) { 66_000 + r.below(200_000) } else if r.chance(10) { r.below(600) } else { r.below(60) };
+        let fill = *r.pick(&["x", "ab", "é"]);
+        let w = serde_json::to_string(r.pick(WORDS)).unwrap();
+        input.extend(format!("{{\"i\":{},\"s\":{},\"pad\":\"{}\"}}\n", n, w, fill.repeat(pad)).into_bytes());
+        n += 1;
+    }
+    let final_newline = r.chance(50);
+    if !final_newline && n > 0 {
+        input.pop();
+    }
+    // query and the number of rows it must let through (reference computation)
+    let (q, want_rows) = *r.pick(&[("* | json", n), ("* | json | where i >= 10", n.saturating_sub(10)), ("* | json | fields i, s", n), ("* | json | where i < 5", n.min(5)), ("*", n)]);
+    let mode = if q == "*" { *r.pick(&["json", "logfmt", "legacy"]) } else { *r.pick(&["json", "logfmt", "legacy", "format={i}:{s}"]) };
+    let mode = if class == "over-8MiB" && mode == "legacy" { "logfmt" } else { mode };
+    let info = json!({"class_of_size": class, "bytes": input.len(), "lines": n, "final_newline": final_newline, "query": q, "mode": mode});
+    let refrun = stdin_run(bin, q, mode, &input);
+    let nl = |b: &[u8]| b.iter().filter(|c| **c == b'\n').count();
+    if !proc_ok(&refrun) || nl(&refrun.stdout) != want_rows {
+        ctx.case(fam, &key, "viol", json!({"class": "C15/loss-dup-reorder", "what": format!("stdin run: {} rows expected, {} written (or it crashed / hung)", want_rows, nl(&refrun.stdout)), "case": info, "proc": refrun.summary()}));
+        return;
+    }
+    // (1) regular file
+    let scratch = match Scratch::new("file") {
+        Some(s) => s,
+        None => {
+            ctx.case(fam, "", "skip", json!({"why": "cannot create a scratch directory"}));
+            return;
+        }
+    };
+    let path = scratch.0.join("input.log");
+    if std::fs::write(&path, &input).is_err() {
+        ctx.case(fam, "", "skip", json!({"why": "cannot write the scratch file"}));
+        return;
+    }
+    let args: Vec<String> = vec!["-f".into(), path.to_string_lossy().into_owned(), q.into(), "-o".into(), mode.into()];
+    let reg = run_proc(bin, &args, Feed::Finite(vec![]), None, 0, Duration::from_secs(120));
+    if !proc_ok(&reg) || reg.stdout != refrun.stdout {
+        ctx.case(fam, &key, "viol", json!({"class": "C15/loss-dup-reorder", "what": "`agrind -f <regular file> q` and `agrind q < file` differ",
+            "first_difference_at": first_diff(&reg.stdout, &refrun.stdout), "stdin_len": refrun.stdout.len(), "file_len": reg.stdout.len(), "case": info, "proc": reg.summary()}));
+        return;
+    }
+    drop(scratch);
+    // (2) the same bytes at full speed through a FIFO / /dev/stdin
+    let via = *r.pick(&[Via::Fifo, Via::Fifo, Via::Fifo, Via::DevStdin, Via::DevStdin, Via::DevFd0, Via::ProcFd0]);
+    let mut live = match Live::spawn(bin, q, mode, via, Duration::from_secs(240)) {
+        Ok(l) => l,
+        Err(e) => {
+            ctx.case(fam, "", "skip", json!({"why": "could not set up the transport", "err": e, "case": info}));
+            return;
+        }
+    };
+    let mut pos = 0;
+    let mut delivered = true;
+    while pos < input.len() {
+        let l = (1 + r.below(70000)).min(input.len() - pos);
+        if !live.write(&input[pos..pos + l]) {
+            delivered = false;
+            break;
+        }
+        pos += l;
+    }
+    let fin = live.finish(Duration::from_secs(120));
+    if !delivered || !fin.exited || fin.status != Some(0) || fin.stdout != refrun.stdout {
+        ctx.case(fam, &key, "viol", json!({"class": if fin.exited { "C15/loss-dup-reorder" } else { "C15/no-termination" },
+            "what": format!("`agrind {} q` and `agrind q < X` differ for the same bytes (or the input could not be delivered / the run did not end)", via.name()),
+            "delivered": delivered, "exited": fin.exited, "status": fin.status, "first_difference_at": first_diff(&fin.stdout, &refrun.stdout),
+            "stdin_len": refrun.stdout.len(), "file_len": fin.stdout.len(), "stderr": fin.stderr.chars().take(300).collect::<String>(), "case": info}));
+        return;
+    }
+    ctx.case(fam, &key, "pass", json!({"case": info, "input_via": ["regular file", via.name()], "rows": want_rows, "output_bytes": refrun.stdout.len()}));
+}
+
 pub fn check(ctx: &mut Ctx) {
     check_huge_rows(ctx);
     check_blank_lines(ctx);
@@ -1650,6 +2217,42 @@ pub fn check(ctx: &mut Ctx) {
                 let b = b.clone();
                 check_trickle_binary(ctx, &b, g)
             }
+        }
+    }
+    // 3c. input through --file: FIFO / /dev/stdin held open by the harness, regular files
+    let need_bin = |bin: &mut Option<Result<String, String>>| -> Result<String, String> {
+        if bin.is_none() {
+            *bin = Some(ensure_binary());
+        }
+        bin.as_ref().unwrap().clone()
+    };
+    let total = if thorough { 480 } else { 64 };
+    for g in indices(ctx, total, &only, "file-paced") {
+        let cap = match &only {
+            Some(k) => k.split(':').nth(2).and_then(|c| c.parse().ok()).unwrap_or(14),
+            None => if thorough { 40 } else { 14 },
+        };
+        match need_bin(&mut bin) {
+            Err(e) => ctx.case("file-paced", "", "skip", json!({"why": "binary not available", "err": e})),
+            Ok(b) => check_file_paced(ctx, &b, g, cap),
+        }
+    }
+    let total = if thorough { 128 } else { 32 };
+    for g in indices(ctx, total, &only, "file-volume") {
+        match need_bin(&mut bin) {
+            Err(e) => ctx.case("file-volume", "", "skip", json!({"why": "binary not available", "err": e})),
+            Ok(b) => check_file_volume(ctx, &b, g),
+        }
+    }
+    let n_tf = if thorough { 6 } else { 2 };
+    let tr_file: Vec<usize> = match &only {
+        Some(k) => k.strip_prefix("trickle-file:").and_then(|n| n.parse().ok()).into_iter().collect(),
+        None => (0..n_tf).filter(|g| (g + 6) % ctx.nshards == ctx.shard).collect(),
+    };
+    for g in tr_file {
+        match need_bin(&mut bin) {
+            Err(e) => ctx.case("trickle-file", "", "skip", json!({"why": "binary not available", "err": e})),
+            Ok(b) => check_trickle_file(ctx, &b, g),
         }
     }
     // 4. volume, stalled consumer, binary: one job per shard
